@@ -103,6 +103,14 @@ class TupleV:
 
 
 @dataclass
+class MapV:
+    """a dict with concrete keys (memo tables); `name` is set for module-level tables"""
+    entries: Dict[Any, Any] = field(default_factory=dict)
+    name: Optional[Tuple[str, str]] = None
+    unknown: Optional[str] = None
+
+
+@dataclass
 class RangeV:
     lo: Lin
     hi: Lin
@@ -295,6 +303,10 @@ class Interp:
         self.mod_env_cache: Dict[str, Dict[str, Any]] = {}
         self.call_hooks: Dict[str, Callable] = {}
         self.unroll_ranges = 16
+        self.map_stores: Dict[Tuple[str, str], Dict[Any, Dict[str, str]]] = {}   # table -> key -> {repr(value): who stored it}
+        self.map_values: Dict[Tuple[str, str], Dict[Any, List[Any]]] = {}
+        self.saturated = False       # True: a table read may return anything an earlier call could have stored
+        self.current_request = ""
         self.trace_calls: List[str] = []
 
     # -- module environments ------------------------------------------------------
@@ -365,11 +377,13 @@ class Interp:
         st = State() if state is None else state
         env = dict(self.module_env(rel))
         for k, v in list(env.items()):
-            if isinstance(v, (CellV, ListV)):
+            if isinstance(v, (CellV, ListV, MapV)):
                 # a module-level mutable object: one instance per abstract run, visible to every frame
                 key = (rel, k)
                 if key not in st.globals:
                     st.globals[key] = copy.deepcopy(v)
+                    if isinstance(v, MapV):
+                        st.globals[key].name = key
                 env[k] = st.globals[key]
         params = fn.args.args
         defaults = fn.args.defaults
@@ -532,6 +546,14 @@ class Interp:
             if isinstance(base, ListV):
                 base.stores.append((idx, v, state.binders))
                 state.effects.append(("store", (base, idx, v, state.binders)))
+                return
+            if isinstance(base, MapV):
+                key = self.freeze_key(idx)
+                if key is _MISSING:
+                    base.unknown = "written with a symbolic key"
+                else:
+                    base.entries[key] = v
+                    self._record_store(base, key, v)
                 return
             if isinstance(base, CellV):
                 if isinstance(idx, StrV):
@@ -921,6 +943,8 @@ class Interp:
             if isinstance(e, ast.Tuple):
                 return TupleV(items)
             return ListV([Seg(x) for x in items])
+        if isinstance(e, ast.Dict) and not e.keys:
+            return MapV({})
         if isinstance(e, ast.Dict):
             keys = []
             for k in e.keys:
@@ -995,6 +1019,14 @@ class Interp:
                     return Unknown("identity test on unknown")
                 return same if isinstance(op, ast.Is) else not same
             return Unknown("identity test")
+        if isinstance(op, (ast.In, ast.NotIn)) and isinstance(r, MapV):
+            key = self.freeze_key(l)
+            if key is _MISSING or r.unknown:
+                return Unknown("membership in a table with symbolic keys")
+            present = key in r.entries
+            if not present and self.saturated and r.name is not None and self.map_values.get(r.name, {}).get(key):
+                return Unknown("membership depends on earlier calls")
+            return present if isinstance(op, ast.In) else not present
         sym = {ast.Eq: "==", ast.NotEq: "!=", ast.Lt: "<", ast.LtE: "<=", ast.Gt: ">", ast.GtE: ">="}.get(type(op))
         if sym is None:
             return Unknown(f"comparison {type(op).__name__}")
@@ -1108,6 +1140,8 @@ class Interp:
             if isinstance(idx, StrV) and idx.text in base.fields:
                 return base.fields[idx.text]
             return Unknown(f"cell key {idx!r}")
+        if isinstance(base, MapV):
+            return self._table_read(base, self.freeze_key(idx), None, state, node, has_default=False)
         if isinstance(base, TableV):
             if isinstance(idx, Lin):
                 lo, hi = idx.rng()
@@ -1133,6 +1167,86 @@ class Interp:
                 return base.items[idx.const]
             return Unknown("tuple index")
         return Unknown(f"subscript of {type(base).__name__}")
+
+    @staticmethod
+    def freeze_key(k: Any):
+        if isinstance(k, Lin) and k.is_const():
+            return k.const
+        if isinstance(k, StrV):
+            return k.text
+        if isinstance(k, bool) or k is None:
+            return k
+        if isinstance(k, NoneV):
+            return None
+        if isinstance(k, TupleV):
+            parts = [Interp.freeze_key(x) for x in k.items]
+            return None if any(p is _MISSING for p in parts) else tuple(parts)
+        return _MISSING
+
+    def _record_store(self, m: MapV, key: Any, v: Any) -> None:
+        if m.name is None:
+            return
+        self.map_stores.setdefault(m.name, {}).setdefault(key, {}).setdefault(repr(v), self.current_request)
+        vals = self.map_values.setdefault(m.name, {}).setdefault(key, [])
+        if not any(repr(x) == repr(v) for x in vals):
+            vals.append(v)
+
+    def _table_read(self, m: MapV, key: Any, default: Any, state: State, node: ast.AST, has_default: bool = True) -> Any:
+        """value of table[key]; in saturated mode one alternative per value an earlier call may have left there"""
+        if m.unknown or key is _MISSING:
+            return Unknown("table with a symbolic key")
+        alts: List[Any] = []
+        if key in m.entries:
+            alts.append(m.entries[key])
+        elif self.saturated and m.name is not None:
+            alts.extend(self.map_values.get(m.name, {}).get(key, []))
+            if has_default:
+                alts.append(default)
+        elif has_default:
+            alts.append(default)
+        if not alts:
+            raise _Raise(ExcV("KeyError", repr(key)), state)
+        if len(alts) == 1:
+            return alts[0]
+        if id(node) in state.call_memo:
+            return state.call_memo.pop(id(node))
+        forks = []
+        for v in alts:
+            s2 = state.fork()
+            # the value is now what this run sees under that key
+            tbl = s2.globals.get(m.name) if m.name else None
+            if isinstance(tbl, MapV):
+                tbl.entries[key] = v
+            s2.path.append((CondV("==", Lin.of(Opaque(f"{m.name[1] if m.name else 'table'}[{key!r}] left by an earlier call", 0, 1)), Lin(1)), True, "history"))
+            forks.append((s2, node, v))
+        raise _Fork(forks)
+
+    def map_method(self, m: MapV, attr: str, args: List[Any], state: State, node: ast.Call) -> Any:
+        if attr == "get" and 1 <= len(args) <= 2:
+            return self._table_read(m, self.freeze_key(args[0]), args[1] if len(args) == 2 else NONE, state, node)
+        if attr == "setdefault" and len(args) == 2:
+            key = self.freeze_key(args[0])
+            if key is _MISSING:
+                m.unknown = "written with a symbolic key"
+                return Unknown("table key")
+            if key in m.entries:
+                return m.entries[key]
+            if self.saturated and m.name is not None and self.map_values.get(m.name, {}).get(key):
+                cur = self._table_read(m, key, args[1], state, node)
+                return cur
+            m.entries[key] = args[1]
+            self._record_store(m, key, args[1])
+            return args[1]
+        if attr in ("clear",):
+            m.entries.clear()
+            return NONE
+        if attr == "pop" and args:
+            key = self.freeze_key(args[0])
+            v = self._table_read(m, key, args[1] if len(args) > 1 else NONE, state, node, has_default=len(args) > 1)
+            m.entries.pop(key, None)
+            return v
+        m.unknown = f"method .{attr} not modelled"
+        return Unknown(f"table method .{attr}")
 
     def slice_of(self, base: Any, sl: ast.Slice, state: State, rel: str) -> Any:
         def bound(n):
@@ -1189,6 +1303,8 @@ class Interp:
                     return NONE
                 recv.unknown = f"list method .{f.attr} not modelled"
                 return Unknown(f"list method .{f.attr}")
+            if isinstance(recv, MapV):
+                return self.map_method(recv, f.attr, args, state, e)
             if isinstance(recv, (GenericList, TableV)):
                 if f.attr in ("append", "extend", "insert", "pop", "remove", "clear", "sort", "reverse"):
                     state.effects.append(("mutates-input", f"{core.src(f.value)}.{f.attr}(...)"))
@@ -1259,6 +1375,8 @@ class Interp:
                 if d:
                     best = a
             return best
+        if name == "len" and len(args) == 1 and isinstance(args[0], MapV):
+            return Lin(len(args[0].entries)) if not self.saturated and not args[0].unknown else Unknown("size of a table filled by earlier calls")
         if name == "len" and len(args) == 1:
             a = args[0]
             if isinstance(a, ListV):
